@@ -99,6 +99,7 @@ def check_add_processor(program, rep):
     late_prio = []
     late_replace = []
     world_late = []
+    world_early = []
     keys = set()
     insorts = 0
     stores = 0
@@ -157,6 +158,8 @@ def check_add_processor(program, rep):
             late_replace.append(tr[i_rep].node)
         if i_note is not None and (i_world is None or i_world > i_note):
             world_late.append(tr[i_note].node)
+        if i_world is not None and i_rep is not None and i_world < i_rep:
+            world_early.append(tr[i_world].node)
         if i_world is None:
             world_late.append(f.node)
     rep.check(not truthy, 'C07.optional', site,
@@ -235,6 +238,14 @@ def check_add_processor(program, rep):
               'processor.world is not set (before on_add is delivered)',
               line=getattr(world_late[0], 'lineno', None) if world_late
               else f.node.lineno)
+    rep.check(not world_early, 'C07.protocol', site,
+              world_early[0] if world_early else f'{proc}.world = self',
+              'the world is assigned after the replaced processor was '
+              'detached', 'processor.world is assigned before the previous '
+              'processor of that type is removed: re-adding the registered '
+              'instance lets its own removal reset the world it was just '
+              'given', line=getattr(world_early[0], 'lineno', None)
+              if world_early else f.node.lineno)
     # both tables on every path
     both = True
     for ex in exits:
@@ -481,6 +492,27 @@ def check_writers(program, rep):
                     continue
                 var, test = pred
                 ident = _identity_predicate(var, test)
+                # the type filtered out must be the one whose table entry is
+                # deleted in this function
+                dels = [norm(t.slice) for x in ast.walk(f.node)
+                        if isinstance(x, ast.Delete) for t in x.targets
+                        if isinstance(t, ast.Subscript) and norm(t.value)
+                        == 'self._processors'] + [
+                    norm(x.args[0]) for x in ast.walk(f.node)
+                    if isinstance(x, ast.Call) and norm(x.func)
+                    == 'self._processors.pop' and x.args]
+                if ident and isinstance(test, ast.Compare) and norm(
+                        test.left) == f'type({var})' and dels:
+                    cmp_to = norm(test.comparators[0])
+                    rep.check(cmp_to in dels, 'C07.writers', site, test,
+                              'the type filtered out of the execution list '
+                              'is the one removed from the type table',
+                              f'the execution list drops processors of type '
+                              f'{cmp_to} while the type table drops '
+                              f'{dels[0]}: a processor matched through a '
+                              'subclass stays in the execution list (keeps '
+                              'running) although it was removed',
+                              line=node.lineno)
                 rep.check(ident, 'C07.writers', site, node,
                           'order-preserving filter on the identity of the '
                           'type / instance',
